@@ -6,7 +6,7 @@
    spec_event d0 f0 flag regs kw : what diagnose_network(net, **kw) has to call for an instance created with
    add_default_functions=flag on which exactly the functions regs were registered - no heap, no history. *)
 From Coq Require Import ZArith List Bool.
-From PPV Require Import C30.Model C30.Proofs.
+From PPV Require Import C30.Model C30.Proofs C30.ModelRestore C30.ProofsRestore.
 Import ListNotations.
 
 (* FULL: after ANY history, what instance i calls (names, function objects, kwargs each receives, ValueError exit)
@@ -78,3 +78,70 @@ Example C30_nonvacuous :
   = ECalls [(101, 8, [(5, 3)])] false.
 Proof. exact nonvacuous. Qed.
 Print Assumptions C30_nonvacuous.
+
+(* ---- "running the diagnostic tool leaves the network unchanged": the diagnostic functions that modify the network
+   temporarily, as stage machines (C30/ModelRestore.v).  o i = outcome of the function's i-th power flow: Conv, Exp
+   (one of expected_exceptions) or Unexp (anything else - the crash); fst (f ... o n) = the net after the call.
+   Main model = the code after the repair "diagnostic experiments restore the network in a finally clause". *)
+
+(* the impedance experiment restores its nine tables on EVERY path: every verdict, expected and unexpected exceptions of
+   both power flows, a crash after any number of the table writes of the replacement *)
+Theorem C30_impedance_preserved : forall w k crash_at o n, fst (impedance w k crash_at o n) = n.
+Proof. exact impedance_preserved. Qed.
+Print Assumptions C30_impedance_preserved.
+
+(* FULL: the overload, line capacitance and switch configuration experiments leave the net unchanged for every verdict
+   and every crash point *)
+Theorem C30_overload_preserved : forall F o n, fst (overload F o n) = n.
+Proof. exact overload_preserved. Qed.
+Print Assumptions C30_overload_preserved.
+Theorem C30_line_cap_preserved : forall C' o n, fst (line_cap C' o n) = n.
+Proof. exact line_cap_preserved. Qed.
+Print Assumptions C30_line_cap_preserved.
+Theorem C30_switch_conf_preserved : forall ALL o n, fst (switch_conf ALL o n) = n.
+Proof. exact switch_conf_preserved. Qed.
+Print Assumptions C30_switch_conf_preserved.
+
+(* the repair changed no verdict and no raised error *)
+Theorem C30_repair_same_result : forall F o n,
+  snd (overload F o n) = snd (overload_old F o n) /\ snd (line_cap F o n) = snd (line_cap_old F o n) /\
+  snd (switch_conf F o n) = snd (switch_conf_old F o n).
+Proof. exact repair_same_result. Qed.
+Print Assumptions C30_repair_same_result.
+
+(* ---- regression witnesses: the code before the repair (restore lines after the inner try statement) *)
+Theorem C30_overload_old_refuted : exists F o n, fst (overload_old F o n) <> n.
+Proof. exact overload_old_refuted. Qed.
+Print Assumptions C30_overload_old_refuted.
+Theorem C30_line_cap_old_refuted : exists C' o n, fst (line_cap_old C' o n) <> n.
+Proof. exact line_cap_old_refuted. Qed.
+Print Assumptions C30_line_cap_old_refuted.
+Theorem C30_switch_conf_old_refuted : exists ALL o n, fst (switch_conf_old ALL o n) <> n.
+Proof. exact switch_conf_old_refuted. Qed.
+Print Assumptions C30_switch_conf_old_refuted.
+(* it restored the net exactly when no power flow of the experiment (run #1..#3) raised an unexpected exception *)
+Theorem C30_overload_old_partial : forall F o n, no_unexp o = true -> fst (overload_old F o n) = n.
+Proof. exact overload_old_preserved_partial. Qed.
+Print Assumptions C30_overload_old_partial.
+Theorem C30_line_cap_old_partial : forall C' o n, no_unexp o = true -> fst (line_cap_old C' o n) = n.
+Proof. exact line_cap_old_preserved_partial. Qed.
+Print Assumptions C30_line_cap_old_partial.
+Theorem C30_switch_conf_old_partial : forall ALL o n, no_unexp o = true -> fst (switch_conf_old ALL o n) = n.
+Proof. exact switch_conf_old_preserved_partial. Qed.
+Print Assumptions C30_switch_conf_old_partial.
+Theorem C30_overload_old_crash_leaves : forall F n,
+  fst (overload_old F (fun i => match i with 0%nat => Exp | _ => Unexp end) n) = set_load F n /\
+  fst (overload_old F (fun i => match i with 2%nat => Unexp | _ => Exp end) n) = set_sgen F (set_gen F n) /\
+  fst (overload_old F (fun i => match i with 3%nat => Unexp | _ => Exp end) n) = set_sgen F (set_gen F (set_load F n)).
+Proof. exact overload_old_crash_leaves. Qed.
+Print Assumptions C30_overload_old_crash_leaves.
+
+Example C30_restore_nonvacuous :
+  overload 100 (fun _ => Exp) net0 = (net0, Ret 0) /\
+  overload 100 (fun i => match i with 3%nat => Conv | _ => Exp end) net0 = (net0, Ret 3) /\
+  overload 100 o_crash1 net0 = (net0, Raised) /\ line_cap 101 o_crash1 net0 = (net0, Raised) /\
+  switch_conf 102 o_crash1 net0 = (net0, Raised) /\
+  impedance (fun i => 200 + Z.of_nat i) 5 (Some 2%nat) (fun _ => Exp) net0 = (net0, Raised) /\
+  impedance (fun i => 200 + Z.of_nat i) 5 None (fun i => match i with O => Exp | _ => Unexp end) net0 = (net0, Raised).
+Proof. exact restore_nonvacuous. Qed.
+Print Assumptions C30_restore_nonvacuous.
